@@ -1,5 +1,6 @@
 #![allow(unused)]
 #![feature(pattern)]
+#![feature(allocator_api)]
 #![allow(non_shorthand_field_patterns)]
 use vstd::prelude::*;
 use vstd::std_specs::ops::*;
@@ -54,6 +55,8 @@ use super::*;
 //@fn Builder::with_functions
 //@fn Builder::with_function
 //@fn Symbols::insert
+//@fn Symbols::append
+//@fn Builder::with_symbols
 //@fn Builder::with_symbol
 //@fn Builder::build
 
